@@ -1,12 +1,26 @@
 import KyupyVerif.Model.Sig
 import KyupyVerif.Proofs.Consistent
+import KyupyVerif.Proofs.AllCircCb
+import KyupyVerif.Proofs.AllCircDemo
 /-! # C16 — the fault-injection callback sees and controls every evaluated signal
 
 Model (M): propagation with a callback = `execCb`: after every op the freshly computed value of its output
 signal is passed through `cb out value` and the result is what is stored (the real callback mutates a writable
 view of the signal's memory in place). The call log is one entry per op, in op order. Tied to the code by
 correspondence of the real call log and results in all three logics (harness/c16.py); the per-op semantics of
-the callback chains themselves is regenerated from the code (C01: `sem2c`, C02: m=8 chain with callback). -/
+the callback chains themselves is regenerated from the code (C01: `sem2c`, C02: m=8 chain with callback).
+
+**Theorem, per program:** `cb_once_in_order`, `cb_identity`, `cb_identity_sees_plain_values`, `cb_log_entry`, `cb_override`,
+`cb_force_is_source`, `cb_upstream_unaffected`, `cb_value_sticks` (every op program, any value domain).
+**Theorem, per NETLIST** (part "ALL circuits"): for every well-formed netlist (`Net.wfB`), every topological order
+(`orderOKB`) and the op program of the `SimOps` model: `callback_all_circuits` — one call per scheduled line, in schedule
+order, no line twice, the value handed over is the gate function of the FINAL operand values, the result is THE solution of
+the gate equations followed by the callback; `callback_force_all_circuits`, `callback_force_spec_all_circuits`,
+`callback_force_three_logics` — forcing a line = solving the system in which the equation of that line is replaced by the
+constant (2-valued callback path, 4-, 8-valued dispatch against the documented algebra); `callback_upstream_all_circuits` —
+everything scheduled before the overridden line is as in the run without callback, the callback sees the plain value there.
+**Correspondence (not theorem):** that `LogicSim.c_prop(inject_cb=…)` invokes the callback once after every row with the row's
+output line (call sites, harness/c16.py) and that `SimOps` produces the rows of the model (C01). -/
 namespace KV.C16
 open KV KV.Sig
 
@@ -96,6 +110,177 @@ theorem cb_value_sticks {α} (sem : Op → List α → α) (cb : Nat → α → 
       simp [execCbOp, upd, Ne.symm hp]
   rw [frame post _ hout]
   simp [execCbOp, upd]
+
+/-- every program, every callback: the `k`-th invocation receives the identity of the `k`-th row's output and the value the
+    row computes from the state left by the rows before it (overrides of earlier invocations included) -/
+theorem cb_log_entry {α} (sem : Op → List α → α) (cb : Nat → α → α) (ops : List Op) (env : Nat → α) :
+    ∀ pre op post, ops = pre ++ op :: post →
+      (cbLog sem cb ops env)[pre.length]? = some (op.out, sem op (op.ins.map (execCb sem cb pre env))) := by
+  intro pre
+  induction pre generalizing ops env with
+  | nil => intro op post h; subst h; simp [cbLog, execCb]
+  | cons p pre ih =>
+    intro op post h; subst h
+    simp only [List.cons_append, cbLog, List.length_cons, List.getElem?_cons_succ]
+    have := ih (ops := pre ++ op :: post) (env := execCbOp sem cb env p) op post rfl
+    rw [this]
+    rfl
+
+/-! ## ALL circuits
+
+The statements start from a NETLIST: every well-formed `net` (`Net.wfB`), every topological `order` (`orderOKB`), the op
+program `genOps tbl net order false` of the `SimOps` model (equal to the real `ops` by exact correspondence, C01); any value
+domain `α` and op semantics `sem` (all three logics: `callback_force_three_logics`), any callback. -/
+
+/-- **call log and meaning of a callback, every netlist**: (a) one invocation per row, in schedule order, with the identity
+    of the row's output line; (b) no line is passed twice (only the scratch slot of cells without a connected output can
+    repeat); (c) the value passed for a row is the row's gate function applied to the FINAL values of its operand lines —
+    overrides made upstream are seen, nothing downstream has happened yet; (d) the result of the run is THE solution of the
+    netlist's gate equations in which every equation is followed by the callback: it solves them and every solution
+    equals it on every signal except the scratch slot. -/
+theorem callback_all_circuits {α} (tbl : List PrefixRow) (net : Net) (order : List Nat) (hwf : net.wfB = true)
+    (ho : orderOKB net order = true) (sem : Op → List α → α) (cb : Nat → α → α) (env : Nat → α) :
+    let ops := (genOps tbl net order false).map OpRow.toOp
+    (cbLog sem cb ops env).map (·.1) = ops.map (·.out) ∧
+    (((cbLog sem cb ops env).map (·.1)).filter (fun x => !Jt net x)).Nodup ∧
+    (∀ (k : Nat) (o : Op), ops[k]? = some o →
+      (cbLog sem cb ops env)[k]? = some (o.out, sem o (o.ins.map (execCb sem cb ops env)))) ∧
+    SolvesJ (Jt net) (fun op xs => cb op.out (sem op xs)) ops env (execCb sem cb ops env) ∧
+    ∀ val, SolvesJ (Jt net) (fun op xs => cb op.out (sem op xs)) ops env val →
+      ∀ x, Jt net x = false → val x = execCb sem cb ops env x := by
+  intro ops
+  have hw : WOJ (Jt net) ops := genOps_WOJ tbl net order false hwf ho
+  refine ⟨cb_once_in_order sem cb ops env, ?_, ?_, execG_solution (Jt net) _ ops hw env,
+    fun val hs => solution_uniqueJ (Jt net) _ ops hw env val hs⟩
+  · rw [cb_once_in_order]; exact woj_outs_nodup hw
+  · intro k o hk
+    obtain ⟨hsplit, hlen⟩ := getElem?_split hk
+    have he := cb_log_entry sem cb ops env _ o _ hsplit
+    rw [hlen] at he
+    rw [he]
+    have hw' : WOJ (Jt net) (ops.take k ++ o :: ops.drop (k + 1)) := hsplit ▸ hw
+    have hfin := operands_final (Jt net) (fun op xs => cb op.out (sem op xs)) (ops.take k) (ops.drop (k + 1)) o env hw'
+    rw [← hsplit] at hfin
+    show some (o.out, sem o (o.ins.map (execG (fun op xs => cb op.out (sem op xs)) (ops.take k) env))) = _
+    rw [hfin]
+    rfl
+
+/-- **override = source replacement, on the netlist**: forcing line `x` to `c` makes every line carry its value in THE
+    solution of the gate-equation system in which the equation of `x` is replaced by the constant `c` (all other equations
+    unchanged) — every netlist, every order, any value domain. -/
+theorem callback_force_all_circuits {α} (tbl : List PrefixRow) (net : Net) (order : List Nat) (hwf : net.wfB = true)
+    (ho : orderOKB net order = true) (sem : Op → List α → α) (x : Nat) (c : α) (env : Nat → α) :
+    let ops := (genOps tbl net order false).map OpRow.toOp
+    SolvesJ (Jt net) (fun op xs => if op.out = x then c else sem op xs) ops env
+      (execCb sem (fun s v => if s = x then c else v) ops env) ∧
+    ∀ val, SolvesJ (Jt net) (fun op xs => if op.out = x then c else sem op xs) ops env val →
+      ∀ y, Jt net y = false → val y = execCb sem (fun s v => if s = x then c else v) ops env y := by
+  intro ops
+  have hw : WOJ (Jt net) ops := genOps_WOJ tbl net order false hwf ho
+  rw [cb_force_is_source]
+  exact ⟨execG_solution (Jt net) _ ops hw env, fun val hs => solution_uniqueJ (Jt net) _ ops hw env val hs⟩
+
+/-- the same against the SPECIFIED gate functions, for a dispatch that agrees with the specification on known op codes -/
+theorem callback_force_spec_all_circuits {α} (sem spec : Nat → List α → α)
+    (heq : ∀ code, KnownCode code → ∀ xs, sem code xs = spec code xs)
+    (net : Net) (order : List Nat) (hwf : net.wfB = true) (ho : orderOKB net order = true) (x : Nat) (c : α)
+    (env : Nat → α) :
+    let ops := (genOps Gen.kindPrefixes net order false).map OpRow.toOp
+    SolvesJ (Jt net) (fun op xs => if op.out = x then c else spec op.code xs) ops env
+      (execCb (fun op => sem op.code) (fun s v => if s = x then c else v) ops env) ∧
+    ∀ val, SolvesJ (Jt net) (fun op xs => if op.out = x then c else spec op.code xs) ops env val →
+      ∀ y, Jt net y = false → val y = execCb (fun op => sem op.code) (fun s v => if s = x then c else v) ops env y := by
+  intro ops
+  rw [cb_force_is_source]
+  exact sim_is_spec_solution (Jt net) _ _ ops (genOps_WOJ Gen.kindPrefixes net order false hwf ho)
+    (fun op hop xs => by
+      show (if op.out = x then c else sem op.code xs) = (if op.out = x then c else spec op.code xs)
+      rw [heq op.code (genOps_known net order false op hop) xs]) env
+
+/-- **in all three logics** (real dispatch chains: 2-valued callback path `sem2c`, 4-valued, 8-valued): forcing a line makes
+    the run compute the solution of the documented gate equations with the equation of that line replaced by the constant -/
+theorem callback_force_three_logics (net : Net) (order : List Nat) (hwf : net.wfB = true)
+    (ho : orderOKB net order = true) (x : Nat) :
+    let ops := (genOps Gen.kindPrefixes net order false).map OpRow.toOp
+    (∀ (c : Bool) (env val : Nat → Bool),
+      SolvesJ (Jt net) (fun op xs => if op.out = x then c else specL2 op.code xs) ops env val →
+      ∀ y, Jt net y = false → execCb (fun op => semL2c op.code) (fun s v => if s = x then c else v) ops env y = val y) ∧
+    (∀ (c : V2) (env val : Nat → V2),
+      SolvesJ (Jt net) (fun op xs => if op.out = x then c else specL4 op.code xs) ops env val →
+      ∀ y, Jt net y = false → execCb (fun op => semL4 op.code) (fun s v => if s = x then c else v) ops env y = val y) ∧
+    (∀ (c : V3) (env val : Nat → V3),
+      SolvesJ (Jt net) (fun op xs => if op.out = x then c else specL8 op.code xs) ops env val →
+      ∀ y, Jt net y = false → execCb (fun op => semL8 op.code) (fun s v => if s = x then c else v) ops env y = val y) :=
+  ⟨fun c env val hs y hy => ((callback_force_spec_all_circuits semL2c specL2 (fun _ h xs => semL2c_eq_spec h xs)
+      net order hwf ho x c env).2 val hs y hy).symm,
+   fun c env val hs y hy => ((callback_force_spec_all_circuits semL4 specL4 (fun _ h xs => semL4_eq_spec h xs)
+      net order hwf ho x c env).2 val hs y hy).symm,
+   fun c env val hs y hy => ((callback_force_spec_all_circuits semL8 specL8 (fun _ h xs => semL8_eq_spec h xs)
+      net order hwf ho x c env).2 val hs y hy).symm⟩
+
+/-- **upstream frame, on the netlist**: a callback that rewrites only line `x` (to any function `f` of the computed value)
+    (a) leaves every signal whose row stands before the row of `x` in the schedule — and every signal no row writes — exactly as
+    in the run without callback; (b) is handed, at `x`, the value the plain simulation computes for `x`; (c) `x` ends up
+    carrying `f` of that value. `pre`/`post` = the rows before / after the row `o` that drives `x`. -/
+theorem callback_upstream_all_circuits {α} (tbl : List PrefixRow) (net : Net) (order : List Nat) (hwf : net.wfB = true)
+    (ho : orderOKB net order = true) (sem : Op → List α → α) (x : Nat) (hx : Jt net x = false) (f : α → α)
+    (env : Nat → α) (pre post : List Op) (o : Op)
+    (hsplit : (genOps tbl net order false).map OpRow.toOp = pre ++ o :: post) (hox : o.out = x) :
+    let ops := (genOps tbl net order false).map OpRow.toOp
+    let cb : Nat → α → α := fun s v => if s = x then f v else v
+    (∀ y, (∀ p ∈ o :: post, p.out ≠ y) → execCb sem cb ops env y = execG sem ops env y) ∧
+    (cbLog sem cb ops env)[pre.length]? = some (x, execG sem ops env x) ∧
+    execCb sem cb ops env x = f (execG sem ops env x) := by
+  intro ops cb
+  have hw : WOJ (Jt net) ops := genOps_WOJ tbl net order false hwf ho
+  have hw' : WOJ (Jt net) (pre ++ o :: post) := hsplit ▸ hw
+  have hjo : Jt net o.out = false := hox ▸ hx
+  obtain ⟨hpost, hpre⟩ := (woj_at_row hw').2 hjo
+  have hprex : ∀ p ∈ pre, p.out ≠ x := hox ▸ hpre
+  have hup := cb_upstream_unaffected sem x f pre post env hprex
+  have hplain : execG sem ops env x = sem o (o.ins.map (execG sem pre env)) := by
+    have hmem : o ∈ ops := by
+      rw [show ops = pre ++ o :: post from hsplit]; exact List.mem_append_right _ List.mem_cons_self
+    have h1 := execG_solvesJ (Jt net) sem ops hw env o hmem hjo
+    rw [hox] at h1
+    rw [h1, operands_final (Jt net) sem pre post o env hw', ← hsplit]
+  refine ⟨?_, ?_, ?_⟩
+  · intro y hy
+    show execG (fun op xs => cb op.out (sem op xs)) ops env y = execG sem ops env y
+    have e1 : ops = pre ++ o :: post := hsplit
+    rw [e1, execG_before _ pre (o :: post) env y hy, execG_before sem pre (o :: post) env y hy]
+    exact congrFun hup y
+  · have he := cb_log_entry sem cb ops env pre o post hsplit
+    rw [he, hup, hox, hplain]
+  · have hs := cb_value_sticks sem cb pre post o env hpost
+    have e1 : ops = pre ++ o :: post := hsplit
+    rw [e1, ← hox, hs, hup]
+    show (if o.out = x then f _ else _) = _
+    rw [if_pos hox, ← e1, hox, hplain]
+
+/-! ### non-vacuity of the all-circuits statements: `demoNet` (AND2 of lines 2, 3 on line 4, INV1 on line 5; `C01.demoNet`),
+2-valued callback path, `a` = 1 (slot 9), `b` = 0 (slot 10), callback forcing the AND output (line 4) to 1 -/
+def demoEnv : Nat → Bool := fun l => l == 9
+def demoCb : Nat → Bool → Bool := fun s v => if s = 4 then true else v
+
+/-- the hypotheses of `callback_all_circuits` hold; its clauses on this instance: the lines in schedule order, each once;
+    at line 4 the callback is handed the computed 0, at line 5 the inverter of the FORCED 1 -/
+example := callback_all_circuits Gen.kindPrefixes Demo.demoNet Demo.demoOrder Demo.demo_hyps.1 Demo.demo_hyps.2.1
+  (fun op => semL2c op.code) demoCb demoEnv
+example : cbLog (fun op => semL2c op.code) demoCb ((genOps Gen.kindPrefixes Demo.demoNet Demo.demoOrder false).map OpRow.toOp)
+    demoEnv = [(0, true), (1, false), (2, true), (3, false), (4, false), (5, false)] := by decide +kernel
+
+/-- `callback_force_three_logics` applies; forcing flips the inverter output: 1 without, 0 with the callback -/
+example := callback_force_three_logics Demo.demoNet Demo.demoOrder Demo.demo_hyps.1 Demo.demo_hyps.2.1 4
+example : execG (fun op => semL2c op.code) ((genOps Gen.kindPrefixes Demo.demoNet Demo.demoOrder false).map OpRow.toOp) demoEnv 5 = true ∧
+    execCb (fun op => semL2c op.code) demoCb ((genOps Gen.kindPrefixes Demo.demoNet Demo.demoOrder false).map OpRow.toOp) demoEnv 5 = false := by
+  decide +kernel
+
+/-- `callback_upstream_all_circuits` applies to the row of line 4 (four rows before it, one after it) -/
+example := callback_upstream_all_circuits Gen.kindPrefixes Demo.demoNet Demo.demoOrder Demo.demo_hyps.1 Demo.demo_hyps.2.1
+  (fun op => semL2c op.code) 4 (by decide +kernel) (fun _ => true) demoEnv
+  [⟨43690, 0, [9, 6, 6, 6]⟩, ⟨43690, 1, [10, 6, 6, 6]⟩, ⟨43690, 2, [0, 6, 6, 6]⟩, ⟨43690, 3, [1, 6, 6, 6]⟩]
+  [⟨21845, 5, [4, 6, 6, 6]⟩] ⟨34952, 4, [2, 3, 6, 6]⟩ (by rw [Demo.demo_ops.1]; rfl) rfl
 
 /-- non-vacuity: forcing the AND output (signal 10) to true flips the downstream inverter -/
 example : execCb (fun op xs => if op.code = 0 then (xs.getD 0 false && xs.getD 1 false) else !(xs.getD 0 false))
